@@ -1,8 +1,220 @@
 //! c_chess.rs -- child module of `chess` (sees Game's private fields).  Constructors for symbolic
-//! games, the abstract view, and the harnesses for Game::* contracts.
+//! games (mk.rs), the adapter between engine values and the spec's encodings (adapt.rs), and the
+//! harnesses for the contracts of Game::*.
 use super::*;
 use crate::nd;
 use crate::spec;
 
 #[path = "mk.rs"]
 pub mod mk;
+#[path = "adapt.rs"]
+pub mod adapt;
+
+// =================================================================================================
+// Game::set_position  (C02, C03, C04, C15, C16)
+// =================================================================================================
+
+pub fn fits_i16(x: i32) -> bool { -32768 <= x && x <= 32767 }
+
+/// WF8 => no i16 overflow of the running score: table facts.  With at most one king and 15 other
+/// pieces per side (promoted pawns are worth at most a queen), any partial sum of contributions
+/// stays within  max|king| + 9*maxQ + 2*maxR + 2*maxB + 2*maxN  <= 32767.
+#[cfg_attr(kani, kani::proof)]
+#[cfg_attr(kani, kani::unwind(65))]
+#[cfg_attr(verif_replay, test)]
+pub fn score_tables_bounded() {
+    fn max_abs(t: &[i16; 64]) -> i32 { let mut m = 0i32; let mut i = 0; while i < 64 { let v = (t[i] as i32).abs(); if v > m { m = v; } i += 1; } m }
+    let (q, r, b, n, p) = (max_abs(&scores::QUEEN_SCORES), max_abs(&scores::ROOK_SCORES), max_abs(&scores::BISHOP_SCORES),
+                           max_abs(&scores::KNIGHT_SCORES), max_abs(&scores::PAWN_SCORES));
+    fn min_of(t: &[i16; 64]) -> i32 { let mut m = i32::MAX; let mut i = 0; while i < 64 { if (t[i] as i32) < m { m = t[i] as i32; } i += 1; } m }
+    let k = max_abs(&scores::KING_SCORES_MIDDLE).max(max_abs(&scores::KING_SCORES_END));
+    let kmin = min_of(&scores::KING_SCORES_MIDDLE).min(min_of(&scores::KING_SCORES_END));
+    assert!(q >= r && q >= b && q >= n && q >= p, "a promoted pawn can be worth more than a queen: bound argument breaks");
+    // with both kings on the board: |score| <= (king spread) + material of one full side
+    assert!((k - kmin) + 9 * q + 2 * r + 2 * b + 2 * n <= SCORE_BOUND as i32, "C16: SCORE_BOUND is not implied by the material bound");
+    // transient states inside push/pop (own king and one more piece lifted) and king captures in the search
+    assert!(SCORE_BOUND as i32 + q + k <= 32767, "C16: transient sums can leave i16");
+}
+
+/// Contract of Game::set_position(p, new):
+///   pre   p valid; |score| <= SCORE_BOUND; past_scores[p] is a table value (|.| <= 20_100)
+///   post  board' = board[p := new]
+///         past_hashes' = past_hashes[p := key(p, new)],  hash'  = hash ^ past_hashes[p] ^ key(p, new)
+///         past_scores' = past_scores[p := sq_score(p, new)], score' = score - past_scores[p] + sq_score(p, new)
+///         frame: every other index of the three arrays, king cache, side, state stack unchanged
+///   and   no overflow, every unchecked index in bounds (Kani's own checks)
+#[cfg_attr(kani, kani::proof)]
+#[cfg_attr(verif_replay, test)]
+pub fn set_position_contract() {
+    let eg = nd::bool();
+    let mut g = mk::sym_game(0, eg);
+    let p = mk::sym_sq();
+    let j = mk::sym_sq();
+    let new = mk::sym_place();
+    // WF4 + WF8 (material bound, lemma score_tables_bounded + DESIGN.md 3.3): the running sum fits i16
+    // before, between and after the two updates
+    nd::assume(fits_i16(g.score as i32 - g.past_scores[p] as i32));
+    nd::assume(fits_i16(g.score as i32 - g.past_scores[p] as i32 + adapt::want_score(p, adapt::code_of(new), eg) as i32));
+    let (hash0, score0, ph0, ps0) = (g.hash, g.score, g.past_hashes[p], g.past_scores[p]);
+    let (bj, phj, psj) = (g.board[j], g.past_hashes[j], g.past_scores[j]);
+    let (kp0, side0, len0, top0) = (g.king_positions, g.current_player, g.state.len(), gs_bits(&g));
+
+    g.set_position(mk::pos_of(p), new);
+
+    let c = adapt::code_of(new);
+    assert!(adapt::code_of(g.board[p]) == c, "set_position: board[p] is not the new content");
+    assert!(g.past_hashes[p] == spec::key(p, c), "C04: cached key of the square is not the published key of its content");
+    assert!(g.hash == hash0 ^ ph0 ^ spec::key(p, c), "C04: hash not updated by (old cached key) xor (new key)");
+    assert!(g.past_scores[p] == adapt::want_score(p, c, eg), "C16: cached score of the square is not the piece-square value of its content");
+    assert!(g.score as i32 == score0 as i32 - ps0 as i32 + adapt::want_score(p, c, eg) as i32, "C16: score not updated by -old +new");
+    if j != p {
+        assert!(g.board[j] == bj && g.past_hashes[j] == phj && g.past_scores[j] == psj, "set_position: frame violated (another square changed)");
+    }
+    assert!(g.king_positions == kp0 && g.current_player == side0 && g.state.len() == len0 && gs_bits(&g) == top0,
+            "set_position: frame violated (king cache / side / state stack changed)");
+    vcover!(j != p && new.is_some(), "placing a piece reachable");
+    vcover!(new.is_none() && eg, "clearing a square in the endgame phase reachable");
+}
+
+pub fn gs_bits(g: &Game) -> u8 { super::gamestate::verif_gamestate::bits(*g.state.last().unwrap()) }
+
+// =================================================================================================
+// Game::push  (C02) -- successor position, per move kind
+// =================================================================================================
+
+/// bound on |score| that WF4 + WF8 give (lemma score_tables_bounded)
+pub const SCORE_BOUND: i16 = 10_700;
+
+/// WF6: a castling right implies king and rook on their home squares
+pub fn wf6(v: &spec::View) -> bool {
+    let b = &v.board;
+    (!v.castle[0] || (b[spec::E1] == spec::K && b[spec::H1] == spec::R))
+        && (!v.castle[1] || (b[spec::E1] == spec::K && b[spec::A1] == spec::R))
+        && (!v.castle[2] || (b[spec::E8] == (spec::K | spec::BLACK) && b[spec::H8] == (spec::R | spec::BLACK)))
+        && (!v.castle[3] || (b[spec::E8] == (spec::K | spec::BLACK) && b[spec::A8] == (spec::R | spec::BLACK)))
+}
+
+/// WF1 (per colour): the king cache points at a king of that colour
+pub fn king_cache_ok(g: &Game, white: bool) -> bool {
+    let p = g.king_positions[if white { 0 } else { 1 }];
+    adapt::code_of(g.board[adapt::sq(p)]) == spec::code(spec::K, white)
+}
+
+/// WF2s / WF2h at one square
+pub fn cache_ok_at(g: &Game, s: usize, eg: bool) -> bool {
+    let c = adapt::code_of(g.board[s]);
+    g.past_scores[s] == adapt::want_score(s, c, eg) && g.past_hashes[s] == spec::key(s, c)
+}
+
+/// squares a move touches (at most 4; unused slots repeat the first)
+pub fn touched(m: &Move) -> [usize; 4] {
+    match adapt::smove_of(m) {
+        spec::SMove::Normal { from, to } | spec::SMove::Promo { from, to, .. } => [from, to, from, to],
+        spec::SMove::EnPassant { from, to } => [from, to, (from / 8) * 8 + to % 8, from],
+        spec::SMove::CastleShort => { let r = match m { Move::CastlingShort { owner } if adapt::is_white(*owner) => 0, _ => 56 }; [r + 4, r + 5, r + 6, r + 7] }
+        spec::SMove::CastleLong => { let r = match m { Move::CastlingLong { owner } if adapt::is_white(*owner) => 0, _ => 56 }; [r + 4, r + 3, r + 2, r] }
+    }
+}
+
+/// a symbolic engine move of the given kind (0 Normal, 1 Promotion, 2 EnPassant, 3 short, 4 long)
+pub fn sym_move(kind: u8) -> Move {
+    match kind {
+        0 => Move::Normal { piece: mk::sym_piece(), start: mk::sym_pos(), end: mk::sym_pos(), captured_piece: mk::sym_place() },
+        1 => Move::Promotion { owner: mk::sym_player(), new_piece: mk::sym_promo_type(), start: mk::sym_pos(), end: mk::sym_pos(), captured_piece: mk::sym_place() },
+        2 => Move::EnPassant { owner: mk::sym_player(), start_col: nd::i8_in(0, 7), end_col: nd::i8_in(0, 7) },
+        3 => Move::CastlingShort { owner: mk::sym_player() },
+        _ => Move::CastlingLong { owner: mk::sym_player() },
+    }
+}
+
+/// Weakest shape precondition under which push's successor is the rules' successor: the move's
+/// redundant fields agree with the board, it moves an own piece, does not capture an own piece or a
+/// king, and the kind-specific facts push relies on (e.p.: own pawn on the 5th/4th rank of start_col;
+/// castling: the right is held).  All of it follows from `m in get_moves()` + WF (C01).
+pub fn push_shape_pre(v: &spec::View, m: &Move) -> bool {
+    let w = v.white_to_move;
+    let b = &v.board;
+    if !adapt::fields_consistent(b, w, m) { return false; }
+    match adapt::smove_of(m) {
+        spec::SMove::Normal { from, to } => from != to && spec::owned_by(b[from], w) && !spec::owned_by(b[to], w) && spec::kind(b[to]) != spec::K
+            // a pawn that advances two ranks stays on its file
+            && (spec::kind(b[from]) != spec::P || (spec::rank(to) - spec::rank(from)).abs() != 2 || spec::file(from) == spec::file(to)),
+        spec::SMove::Promo { from, to, .. } => from != to && b[from] == spec::code(spec::P, w) && !spec::owned_by(b[to], w) && spec::kind(b[to]) != spec::K,
+        // WF7: the pawn to be taken is there, the landing square is empty
+        spec::SMove::EnPassant { from, to } => b[from] == spec::code(spec::P, w) && b[to] == spec::EMPTY
+            && b[(from / 8) * 8 + to % 8] == spec::code(spec::P, !w),
+        // generated only with the squares between king and rook empty
+        spec::SMove::CastleShort => { let r = if w { 0 } else { 56 }; v.castle[if w { 0 } else { 2 }] && b[r + 5] == 0 && b[r + 6] == 0 }
+        spec::SMove::CastleLong => { let r = if w { 0 } else { 56 }; v.castle[if w { 1 } else { 3 }] && b[r + 1] == 0 && b[r + 2] == 0 && b[r + 3] == 0 }
+    }
+}
+
+/// Contract of Game::push for one move kind:
+///   pre   WF5 (1 <= len <= 511), WF6, push_shape_pre, score bound + WF2s at the touched squares
+///   post  view(push(g, m)) == spec::apply(view(g), m)   (board at an arbitrary square j, side, rights, e.p.)
+///         len' == len + 1, the entries below are unchanged
+///         king cache still points at each side's king (WF1 preserved)
+fn push_contract(kind: u8) -> (spec::View, spec::View) {
+    let eg = nd::bool();
+    let mut g = mk::sym_game(1, eg);
+    let m = sym_move(kind);
+    let j = mk::sym_sq();
+    let v = adapt::view_of(&g);
+    nd::assume(v.ep <= 8);
+    nd::assume(wf6(&v));
+    // WF1: at most one king per side
+    nd::assume(spec::count(&v.board, spec::K) <= 1 && spec::count(&v.board, spec::K | spec::BLACK) <= 1);
+    nd::assume(push_shape_pre(&v, &m));
+    nd::assume(-SCORE_BOUND <= g.score && g.score <= SCORE_BOUND);
+    let t = touched(&m);
+    nd::assume(cache_ok_at(&g, t[0], eg) && cache_ok_at(&g, t[1], eg) && cache_ok_at(&g, t[2], eg) && cache_ok_at(&g, t[3], eg));
+    let (wk, bk) = (king_cache_ok(&g, true), king_cache_ok(&g, false));
+    let below0 = super::gamestate::verif_gamestate::bits(g.state[0]);
+    let top0 = gs_bits(&g);
+
+    #[cfg(not(kani))]
+    eprintln!("position: {}\nmove: {}", adapt::show_view(&v), adapt::show_move(&m));
+    g.push(m);
+
+    let want = spec::apply(&v, adapt::smove_of(&m));
+    let got = adapt::view_of(&g);
+    assert!(got.board[j] == want.board[j], "C02: a square of the successor differs from the position the rules prescribe");
+    assert!(got.white_to_move == want.white_to_move, "C02: side to move not flipped");
+    assert!(got.castle[0] == want.castle[0] && got.castle[1] == want.castle[1] && got.castle[2] == want.castle[2] && got.castle[3] == want.castle[3],
+            "C02: castling rights of the successor differ from the rules");
+    assert!(got.ep == want.ep, "C02: en-passant file of the successor differs from the rules (set iff double push beside an enemy pawn)");
+    assert!(g.state.len() == 3, "push did not add exactly one state entry");
+    assert!(super::gamestate::verif_gamestate::bits(g.state[0]) == below0 && super::gamestate::verif_gamestate::bits(g.state[1]) == top0,
+            "push changed an earlier state entry");
+    assert!(!wk || king_cache_ok(&g, true), "C01/C03: white king cache no longer points at the white king");
+    assert!(!bk || king_cache_ok(&g, false), "C01/C03: black king cache no longer points at the black king");
+    vcover!(!v.white_to_move && wk && bk, "black move with both king caches valid reachable");
+    (v, want)
+}
+
+#[cfg_attr(kani, kani::proof)] #[cfg_attr(verif_replay, test)]
+pub fn push_contract_normal() {
+    let (v, want) = push_contract(0);
+    vcover!(want.ep < 8, "successor with an e.p. file reachable");
+    vcover!(v.castle[0] && !want.castle[0] && want.castle[1], "losing one castling right reachable");
+}
+#[cfg_attr(kani, kani::proof)] #[cfg_attr(verif_replay, test)]
+pub fn push_contract_promotion() {
+    let (v, want) = push_contract(1);
+    vcover!(v.castle[3] && !want.castle[3], "promotion capture of a rook on its home square loses the right");
+}
+#[cfg_attr(kani, kani::proof)] #[cfg_attr(verif_replay, test)]
+pub fn push_contract_enpassant() {
+    let (v, want) = push_contract(2);
+    vcover!(v.ep == 7 && v.castle[0] && want.castle[0], "e.p. on the h file with rights kept reachable");
+}
+#[cfg_attr(kani, kani::proof)] #[cfg_attr(verif_replay, test)]
+pub fn push_contract_castling_short() {
+    let (v, want) = push_contract(3);
+    vcover!(v.castle[2] && v.castle[3] && !want.castle[2] && !want.castle[3], "black castling loses both rights");
+}
+#[cfg_attr(kani, kani::proof)] #[cfg_attr(verif_replay, test)]
+pub fn push_contract_castling_long() {
+    let (v, want) = push_contract(4);
+    vcover!(v.castle[0] && v.castle[1] && !want.castle[0] && !want.castle[1], "white castling loses both rights");
+}
